@@ -49,6 +49,14 @@ pub fn identical_rows(a: &RowsOut, b: &RowsOut) -> bool {
     a.rows.len() == b.rows.len() && a.rows.iter().zip(b.rows.iter()).all(|(x, y)| x.len() == y.len() && x.iter().zip(y.iter()).all(|(p, q)| p.identical(q)))
 }
 
+/// bit for bit - except group-key columns: which of two equal key values (-0.0 / 0.0) represents a group depends on which
+/// aggregate first had a value for it and on whether a result was asked for in between (open finding C04), so keys are
+/// compared by value
+pub fn identical_rows_keys_by_value(stmt: &Statement, a: &RowsOut, b: &RowsOut) -> bool {
+    let key_cols: Vec<usize> = match stmt { Statement::Aggregate(x) => x.aggregates.iter().enumerate().filter(|(_, c)| matches!(c.aggregate, sqlgrep::model::Aggregate::GroupKey(_))).map(|(i, _)| i).collect(), _ => vec![] };
+    a.rows.len() == b.rows.len() && a.rows.iter().zip(b.rows.iter()).all(|(x, y)| x.len() == y.len() && x.iter().zip(y.iter()).enumerate().all(|(ci, (p, q))| if key_cols.contains(&ci) { p.same(q, 0.0) } else { p.identical(q) }))
+}
+
 pub fn show_rows(r: &RowsOut, n: usize) -> String { format!("{} rows: {}", r.rows.len(), r.rows.iter().take(n).map(|x| show_row(x)).collect::<Vec<_>>().join(" ")) }
 
 #[derive(Clone, Copy, PartialEq, Debug)]
